@@ -42,11 +42,11 @@ CLAIMED = {
                 "util::uintsmallmod and util::number_theory: every non-constant output depends (data or control) on "
                 "the contents of every value operand at every normal return, in/out operands are not killed before "
                 "they are read, and no out-parameter is read before it is written. An output that ignores an operand "
-                "on a path whose condition does not fix that operand cannot equal the named operation.",
+                "on a path whose condition does not fix that operand cannot equal the named operation. Also: no in-place word loop reads a position an earlier iteration of the same loop has overwritten (store/load index polynomials and direction of travel), and no left shift is performed in a narrower integer type than its cast target.",
         "note": _TB + "Not decided: exactness itself (Barrett estimates, carries, quotient digits) — a solver or "
                 "enumeration question, which is a different technique family. Callees are modelled by weak updates "
                 "with a short table of strong kills; loops are assumed to run at least once for the written-before-read clause.",
-        "technique": "forward data+control dependency analysis over typed HIR (operand relevance, strong kills, read-before-write)",
+        "technique": "forward data+control dependency analysis over typed HIR (operand relevance, strong kills, read-before-write) + symbolic store/load ordering + type-level shift-width contradiction",
         "design_ref": "DESIGN.md §3 R-DEPEND, §4 C08",
     },
     "C09": {
@@ -55,11 +55,11 @@ CLAIMED = {
                 "canonical and documented lazy inputs, no addition can wrap 2^64 and no subtraction can underflow, the "
                 "non-lazy forms end in [0,q) and the lazy forms inside their documented ranges; the NTT wrappers reach "
                 "the transform of their direction and laziness; the random start of the primitive-root search is confined "
-                "to a minimum over a start-independent set (who-may-call + scan shape), so the root is deterministic.",
+                "to a minimum over a start-independent set (who-may-call + scan shape), so the root is deterministic. Also: the ntt/intt _p/_ps wrappers hand every component to the transform exactly once (the running offset advances by exactly the slice width).",
         "note": _TB + "External fact used: multiply_u64operand_mod_lazy returns a value below 2q (its documented contract, "
                 "covered structurally by C08). Not decided: that the transform is the evaluation map in bit-reversed "
                 "order, invertibility, the convolution property.",
-        "technique": "interval abstract interpretation (multiples of a symbolic modulus) of source + who-may-call",
+        "technique": "interval abstract interpretation (multiples of a symbolic modulus) of source + who-may-call + symbolic induction of wrapper offsets",
         "design_ref": "DESIGN.md §3 R-RANGE, §4 C09",
     },
     "C11": {
@@ -67,10 +67,10 @@ CLAIMED = {
                 "the same index-map field with the loop variable as index; the tail beyond the input is zero-filled "
                 "through the same map; encode ends with the inverse and decode begins with the forward non-lazy "
                 "negacyclic transform of the same tables; coefficient encoding reduces modulo t; and every index "
-                "guarded by a comparison with the operand length (Galois permutation) is implied in-bounds.",
+                "guarded by a comparison with the operand length (Galois permutation) is implied in-bounds. Also: GaloisTool::apply stores to its out-buffer for every index of the ring degree.",
         "note": _TB + "Not decided: that batching is a ring isomorphism, the slot order, the rotation correspondence "
                 "(facts about roots of unity and the index map's contents).",
-        "technique": "structural pair agreement on typed HIR (scatter/gather, transform pairs) + guard/use contradiction",
+        "technique": "structural pair agreement on typed HIR (scatter/gather, transform pairs) + guard/use contradiction + iteration-space coverage of the out-buffer",
         "design_ref": "DESIGN.md §3 R-CONTRA, §4 C11",
     },
     "C12": {
@@ -91,11 +91,11 @@ CLAIMED = {
                 "precondition reaches the ladder through a refusing guard (all-pairs coprimality refusal in RNSBase::new; "
                 "refusal propagation validate <- create_ntt_tables <- NTTTables::new <- try_minimal_primitive_root <- "
                 "try_primitive_root with the up-front 2N | q-1 refusal); identifier reproducibility (compute_parms_id reads "
-                "every hashed field, writers of hashed fields recompute on every path, nothing nondeterministic reachable).",
+                "every hashed field, writers of hashed fields recompute on every path, nothing nondeterministic reachable). Also: the words of the parms_id hash input are stored at pairwise distinct positions for every chain length.",
         "note": _TB + "Not decided: that accepted parameters satisfy the mathematics as values, collision freedom of the "
                 "hash, primality of generated moduli, panic freedom of the whole constructor tree, equality of "
                 "precomputed constants with their definitions.",
-        "technique": "forward error-state dataflow + dominance of unwraps + refusal-propagation chain over resolved callees",
+        "technique": "forward error-state dataflow + dominance of unwraps + refusal-propagation chain over resolved callees + symbolic distinctness of hash-input positions",
         "design_ref": "DESIGN.md §3 R-LADDER, §4 C13",
     },
     "C14": {
@@ -115,10 +115,10 @@ CLAIMED = {
                 "discovered by type): no short-count write/read primitive without retry, no unwrap/expect on an "
                 "io::Result, every io::Result propagated. These call-site properties are exactly what 'short writes "
                 "tolerated, faults reported, early end of stream returns an error, no panic' require, and they hold "
-                "for all writers/readers and all truncation offsets because they hold on every path.",
+                "for all writers/readers and all truncation offsets because they hold on every path. Results consumed through iterator adaptors are followed: flat_map / filter_map / flatten over Results drop the error.",
         "note": _TB + "Not decided: behaviour on corrupted (not merely truncated) input; byte-level content. "
                 "Panic sites that depend on fully-read values are inventoried, not proved unreachable.",
-        "technique": "call-site error-discipline analysis over typed HIR (resolved callees, consumption of io::Result values)",
+        "technique": "call-site error-discipline analysis over typed HIR (resolved callees, consumption of io::Result values) (incl. iterator adaptors)",
         "design_ref": "DESIGN.md §3 R-IOERR, §4 C15",
     },
     "C01": {
@@ -205,10 +205,10 @@ CLAIMED = {
                 "generator the stored seed and mask derive from it only; nothing nondeterministic is reachable from the "
                 "generator's stream and refill hashes exactly (seed, counter); ternary / binomial samples are drawn once "
                 "per coefficient outside the RNS-component loop; the seed is stored and expanded at the same address and "
-                "length through from_seed -> uniform.",
+                "length through from_seed -> uniform. Also: the error polynomial of every encryption worker is drawn from an entropy generator created inside the call.",
         "note": _TB + "Not decided: independence of the stream from read chunking, non-repetition, difference between "
                 "seeds, distribution shape, the bound 21.",
-        "technique": "generator-kind provenance dataflow + who-may-call + loop-nesting of draw sites + address agreement",
+        "technique": "generator-kind provenance dataflow + who-may-call + loop-nesting of draw sites + address agreement + noise-generator provenance",
         "design_ref": "DESIGN.md §3 R-RNGPROV, §4 C16",
     },
     "C17": {
